@@ -131,6 +131,9 @@ std::string planToText(const Plan &p);
 bool planFromText(const std::string &text, Plan &p, std::string &err);
 bool planLoad(const std::string &path, Plan &p, std::string &err);
 bool planSave(const std::string &path, const Plan &p);
+// several plans in one file (executed in order in one process: history replays)
+bool planLoadMulti(const std::string &path, std::vector<Plan> &plans, std::string &err);
+bool planSaveMulti(const std::string &path, const std::vector<Plan> &plans);
 std::string opKindName(int k);
 std::string cbKindName(int k);
 std::string variantModeName(int k);
